@@ -123,6 +123,14 @@ CHECKS["C15"] = dict(
     note="Exact ties at the threshold that cannot all be enclosed are skipped for the boundary comparison (counted); regions with holes: union only.",
     design="7/C15",
 )
+CHECKS["C03"] = dict(
+    technique="property-based testing (Hypothesis): validity predicate on every polygon edge (quantile bracket of the projected sample on a direction grid) computed from coordinates and sample only",
+    text="Generated 2-D samples (model samples via the harness' inverse Rosenblatt; cluster mixtures, heavy tails, integer lattices with ties, nearly collinear clouds; 50-50000 points), alpha in "
+         "[1e-4,0.3], all 19 divisors of 360 in [1,60] plus 5 fractional steps; and sample=None. Exactly 360/deg_step vertices; a single phase and rotation sense exist such that every edge incl. the "
+         "closing one lies on the tangent line of its grid direction with offset between the (k-1)th and (k+1)th order statistic, k=ceil((1-alpha)N); sample untouched; int(100/alpha) points drawn without sample.",
+    note="Tolerance 1e-9*max|sample|; the quantile definition is left open (bracket of neighbouring order statistics).",
+    design="7/C03",
+)
 NOT_YET = {}
 
 def main():
